@@ -436,3 +436,88 @@ pub fn c04_fixed_tx<S: Src>(_s: &mut S) {
 /// wrapper instead: FixedTransaction is not applicable to arbitrary bytes, so hash via ScriptDataHash of no-op inputs is not
 /// available either — the crate re-exports no raw blake2b. We therefore compare with the hash of a datum rebuilt from the same bytes.
 fn blake(b: &[u8]) -> Vec<u8> { hash_plutus_data(&PlutusData::from_bytes(b.to_vec()).unwrap()).to_bytes() }
+
+// ---------------------------------------------------------------- C13: send-all batches, through the public API
+pub fn c13_send_all<S: Src>(_s: &mut S) {
+    let owner_tokens = BaseAddress::new(0, &kc(1), &kc(2)).to_address();
+    let owner_ada = BaseAddress::new(0, &kc(3), &kc(4)).to_address();
+    let target = BaseAddress::new(0, &kc(5), &kc(6)).to_address();
+    let mut utxos = TransactionUnspentOutputs::new();
+    let mut supplied: Vec<(Vec<u8>, u32, u64, u64)> = Vec::new();         // (tx id, index, lovelace, asset units)
+    let txid = [0x3bu8; 32];
+    let mut idx = 0u32;
+    for p in 0..40u8 {
+        let mut ma = MultiAsset::new();
+        ma.set_asset(&ScriptHash::from([p + 1; 28]), &AssetName::new(vec![p + 1; 8]).unwrap(), &bn(1));
+        let v = Value::new_with_assets(&bn(150_000), &ma);
+        utxos.add(&TransactionUnspentOutput::new(&TransactionInput::new(&TransactionHash::from(txid), idx), &TransactionOutput::new(&owner_tokens, &v)));
+        supplied.push((txid.to_vec(), idx, 150_000, 1));
+        idx += 1;
+    }
+    for _ in 0..200 {
+        utxos.add(&TransactionUnspentOutput::new(&TransactionInput::new(&TransactionHash::from(txid), idx), &TransactionOutput::new(&owner_ada, &Value::new(&bn(250_000)))));
+        supplied.push((txid.to_vec(), idx, 250_000, 0));
+        idx += 1;
+    }
+    let lin = LinearFee::new(&bn(44), &bn(155381));
+    let mut failures: Vec<String> = Vec::new();
+    let mut successes = 0;
+    let mut limit = 1400u32;
+    while limit <= 2600 {
+        let cfg = TransactionBuilderConfigBuilder::new().fee_algo(&lin).pool_deposit(&bn(500_000_000)).key_deposit(&bn(2_000_000))
+            .max_value_size(4000).max_tx_size(limit).coins_per_utxo_byte(&bn(4310)).build().unwrap();
+        if let Ok(batches) = create_send_all(&target, &utxos, &cfg) {
+            successes += 1;
+            let mut spent: Vec<u32> = Vec::new();
+            for bi in 0..batches.len() {
+                let batch = batches.get(bi);
+                for ti in 0..batch.len() {
+                    let tx = batch.get(ti);
+                    let size = tx.to_bytes().len();
+                    let body = tx.body();
+                    let (mut in_coin, mut in_assets) = (0u128, 0u128);
+                    let mut owners = (false, false);
+                    for ii in 0..body.inputs().len() {
+                        let i = body.inputs().get(ii).index();
+                        spent.push(i);
+                        let s = &supplied[i as usize];
+                        in_coin += s.2 as u128; in_assets += s.3 as u128;
+                        if s.3 > 0 { owners.0 = true } else { owners.1 = true }
+                    }
+                    let (mut out_coin, mut out_assets) = (0u128, 0u128);
+                    for oi in 0..body.outputs().len() {
+                        let o = body.outputs().get(oi);
+                        if o.address().to_bytes() != target.to_bytes() { failures.push(format!("limit {}: an output pays another address", limit)); }
+                        out_coin += u64::from(o.amount().coin()) as u128;
+                        if let Some(ma) = o.amount().multiasset() {
+                            let pols = ma.keys();
+                            for p in 0..pols.len() { let a = ma.get(&pols.get(p)).unwrap(); let ns = a.keys(); for n in 0..ns.len() { out_assets += u64::from(a.get(&ns.get(n)).unwrap()) as u128; } }
+                        }
+                        let need = u64::from(min_ada_for_output(&o, &DataCost::new_coins_per_byte(&bn(4310))).unwrap());
+                        if u64::from(o.amount().coin()) < need { failures.push(format!("limit {}: an output is below its minimum ADA", limit)); }
+                        if o.amount().to_bytes().len() > 4000 { failures.push(format!("limit {}: value larger than max value size", limit)); }
+                    }
+                    let fee = u64::from(body.fee()) as u128;
+                    if in_coin != out_coin + fee || in_assets != out_assets { failures.push(format!("limit {}: transaction {} is not balanced", limit, ti)); }
+                    // signed size: one key witness per distinct owning key
+                    let nkeys = owners.0 as u8 + owners.1 as u8;
+                    let mut ws = tx.witness_set();
+                    let mut vk = Vkeywitnesses::new();
+                    for k in 0..nkeys { vk.add(&Vkeywitness::new(&Vkey::new(&pubkey(k)), &sig())); }
+                    ws.set_vkeys(&vk);
+                    let signed = Transaction::new(&body, &ws, None);
+                    let ssize = signed.to_bytes().len();
+                    if ssize > limit as usize || size > limit as usize { failures.push(format!("limit {}: transaction of {} bytes ({} signed) exceeds max_tx_size", limit, size, ssize)); }
+                    let need_fee = u64::from(min_fee(&signed, &lin).unwrap()) as u128;
+                    if fee < need_fee { failures.push(format!("limit {}: fee {} below the minimum {} for the signed size", limit, fee, need_fee)); }
+                }
+            }
+            spent.sort();
+            let all: Vec<u32> = (0..idx).collect();
+            if spent != all { failures.push(format!("limit {}: supplied UTxOs are not spent exactly once ({} inputs for {} UTxOs)", limit, spent.len(), all.len())); }
+        }
+        limit += 3;
+    }
+    assert!(successes > 20, "send-all battery: too few successful builds ({}) to mean anything", successes);
+    assert!(failures.is_empty(), "{} send-all checks fail over {} successful builds; first: {}", failures.len(), successes, failures[0]);
+}
